@@ -367,6 +367,11 @@ class Interp:
             return arr[i]
         if name == "array_length":
             return len(a[0])
+        if name == "array_slice":
+            arr, st, ln = a
+            if st < 0 or ln < 0 or st + ln > len(arr):
+                raise Fault("oob", "array_slice")      # only the in-range domain is defined by docs/STDLIB.md
+            return list(arr[st:st + ln])
         if name == "array_new":
             if a[0] < 0 or a[0] > 100000:
                 raise Fault("array_new-size")
